@@ -2,14 +2,26 @@
    Statements only; every proof is `exact <lemma>`. *)
 From Repid Require Import Base Sched MemBroker MemProofs MemProofs2 MemProofs3.
 
-(* one consumer (filter F) on queue q, any history: the delivered message arrived in the waiting list before every matching message still waiting; arrival = enqueue, return (reject/finish) or becoming due *)
+(* any history, ANY number of consumers with any topic filters on the queue (since the full-turn poll, fix recorded for C11,
+   nothing is rotated any more): the delivered message arrived in the waiting list before every message of the consumer's
+   queue and topics still waiting; arrival = enqueue, return (reject/finish) or becoming due *)
 Theorem C15_mem_fifo_delivery : forall q F h c now upd s' m,
-  fifo_ok_run q F h -> poll (run s0 h) c q Normal F now upd = (s', PDelivered m) ->
+  poll (run s0 h) c q Normal F now upd = (s', PDelivered m) ->
   Forall (fun m' => matchP q F m' = true -> m_stamp m < m_stamp m') (simple s').
 Proof. exact fifo_delivery_reachable. Qed.
 
-Theorem C15_mem_fifo_invariant : forall q F s o, FifoInv q F s -> fifo_ok q F o -> FifoInv q F (fst (step s o)).
+(* it is the OLDEST live message of its queue and topics: later arrivals cannot overtake a waiting message *)
+Theorem C15_mem_fifo_oldest_first : forall q F s c now upd s' m,
+  FifoInv s -> poll s c q Normal F now upd = (s', PDelivered m) ->
+  forall m', In m' (simple (pre_poll s q now upd)) -> hit q F now m' = true -> m_stamp m <= m_stamp m'.
+Proof. exact fifo_oldest_first. Qed.
+
+(* the waiting list is in arrival order in every reachable state *)
+Theorem C15_mem_fifo_invariant : forall s o, FifoInv s -> FifoInv (fst (step s o)).
 Proof. exact FifoInv_step. Qed.
+
+Theorem C15_mem_fifo_reachable : forall h, FifoInv (run s0 h).
+Proof. exact FifoInv_all. Qed.
 
 (* stamps are handed out in arrival order, so a returned message is ahead of everything enqueued after its return *)
 Theorem C15_mem_stamps_increase : forall s m, stamp (append_simple s m) = stamp s + 1 /\
@@ -18,4 +30,6 @@ Proof. exact stamps_increase. Qed.
 
 Print Assumptions C15_mem_fifo_delivery.
 Print Assumptions C15_mem_fifo_invariant.
+Print Assumptions C15_mem_fifo_oldest_first.
+Print Assumptions C15_mem_fifo_reachable.
 Print Assumptions C15_mem_stamps_increase.
